@@ -616,6 +616,10 @@ def check_one(chain, b, xdev, comp, form='abs', group='chain', stats=None, virtu
     try:
         if cwd:
             os.chdir(cwd)
+        # history, not a single call: the same start is first queried with the opposite allow_compressed
+        # (and allow_xdev) setting, so anything the routine remembers between calls in one process is part
+        # of the judged execution - and of its stand-alone replay
+        gem.call(ftl.find_top_level_manifest, path, allow_xdev=not xdev, allow_compressed=not comp)
         o = gem.call(ftl.find_top_level_manifest, path, allow_xdev=xdev, allow_compressed=comp)
     finally:
         PROXY.inner = None
